@@ -143,6 +143,8 @@ class C13(Prop):
             dt_fresh = f.snaps[npre - 1]["dt"] if npre > 0 else None
             # dt right after reset: magnitude of the constructor's dt, oriented along the span
             for j in range(r + 1, len(ops)):
+                if scn.get("nan_then_repeat") is not None and j >= scn["nan_then_repeat"]:
+                    break       # an episode of non-finite slopes is pinned to peer-call indices: how many calls the two worlds have made by then is not a result
                 a = w.snaps[j]
                 b = f.snaps[npre + (j - r - 1)]
                 d = snaps_equal(a, b)
@@ -151,6 +153,23 @@ class C13(Prop):
                     break
                 if a["kind"] == "reset":
                     break
+        # (f) a call that failed on non-finite slopes, made again on the healed model: the outcome must not depend on the failed call
+        if scn.get("nan_then_repeat") is not None:
+            i0 = scn["nan_then_repeat"]
+            a0, a1 = w.snaps[i0], w.snaps[i0 + 1]
+            if a0["exc"] is not None and a1["exc"] is not None and not w.raised_by_op.get(i0 + 1):
+                # an undisturbed system (no faults at all, the failing call left out) completes that call?
+                tw = copy.deepcopy(scn)
+                tw.pop("expect", None)
+                tw["faults"] = []
+                tw["ops"] = scn["ops"][:i0] + scn["ops"][i0 + 1:]
+                tw.pop("nan_then_repeat", None)
+                g = World(tw, monitors=[])
+                g.run()
+                absorb(res, g)
+                if g.snaps[i0]["exc"] is None and bitwise_equal(a0["t"], w.snaps[i0 - 1]["t"] if i0 > 0 else a0["t"][:1]):
+                    bad("history_independent", "op %d fails (%s) when it is repeated after a call that failed on non-finite slopes (nothing recorded by it), an undisturbed system completes it"
+                        % (i0 + 1, a1["exc_type"]), i0 + 1)
         # (d) no-op at target
         for i, op in enumerate(ops):
             if op.get("noop"):
